@@ -833,7 +833,8 @@ def run(tier):
         "distinct_nontrivial": cov["literals"]["judged"] + nnum + cov["quote"]["strings"] + cov["tostring"]["values"] + ndate,
         "rule": "distinct inputs after de-duplication: literal texts that the reference accepts + spellings that are numerals "
                 "+ %q strings + printed values + instants; evaluations = one per (input, reader/form/directive)",
-        "exhaustive": "literal forms and numeral spellings: every string up to the stated length over the stated alphabet; "
+        "exhaustive": False,
+        "exhaustive_parts": "literal forms and numeral spellings: every string up to the stated length over the stated alphabet; "
                       "the rest is a boundary grid plus seeded random sample",
         "known_findings_hit": sorted(verd.known_hit),
         "violation_keys": sorted(verd.nviol),
